@@ -3,6 +3,7 @@ soupsieve.  One emitted TLC state = one document with the predicted relation for
 from __future__ import annotations
 import multiprocessing as mp
 import os
+import signal
 import sys
 import warnings
 
@@ -30,8 +31,17 @@ def _compile_pool(pool, opts):
     return comp
 
 
+class _ReplayTimeout(BaseException):
+    pass
+
+
+def _replay_alarm(signum, frame):
+    raise _ReplayTimeout()
+
+
 def _init(pool, opts):
     warnings.simplefilter('ignore')
+    signal.signal(signal.SIGALRM, _replay_alarm)
     sv, bs4 = common.import_repo()
     _G['sv'] = sv
     _G['bs4'] = bs4
@@ -88,6 +98,7 @@ def _work(chunk):
                 continue
             exp = dom.mask_to_ids(exp_mask)
             try:
+                signal.alarm(30)
                 got = [idmap.get(id(t), -1) for t in obj.select(container)]
                 ncalls += 1
                 if is_frag:
@@ -97,9 +108,14 @@ def _work(chunk):
                         out.append((s, css, d, 'match(root)', root_m, exp))
                 else:
                     exp_sel = exp
+            except _ReplayTimeout:
+                out.append((s, css, d, 'raise', 'no termination within 30 s', exp))
+                continue
             except Exception as e:
                 out.append((s, css, d, 'raise', '%s: %s' % (type(e).__name__, str(e).split('\n')[0]), exp))
                 continue
+            finally:
+                signal.alarm(0)
             if got != exp_sel:
                 out.append((s, css, d, 'select', got, exp_sel))
             if exp_mask:
